@@ -40,6 +40,7 @@ def obligations(tier):
     for scope in (1, 2):
         obs.append(Ob(f"L2.select_tag[{{semver}}, scope {scope}]", "c09.py", "select_tag",
                       {"order": scope - 1, "legacy": True, "fix": {"scope": scope, "junk": scope == 1, "explicit_zero": False}}, timeout=t))
+    obs.append(Ob("L2.junk_tag_symbolic", "c09.py", "junk_tag_symbolic", {}, timeout=t, bounds="tag text: any str of length <= 2"))
     obs.append(Ob("L2.no_matching_tag", "c09.py", "no_matching_tag", {}, timeout=t))
     is_open = finding_open(KEY_IMPOSSIBLE)
     obs.append(Ob("L1.is_valid_total[vYYYY.0M.0D]", "c09.py", "is_valid_total", {"exclude_impossible_dates": True} if is_open else {}, timeout=t))
